@@ -14,6 +14,16 @@ import NeumannModel.Gossip.Model
     view r                                 -> <view>
     mgr_new g loc maxDelta | mgr_add_peer g p | mgr_sync g sender senderTime <batch>
     mgr_suspect g m inc | mgr_alive g m inc | mgr_view g            -> rej=.. own=.. sus=.. | <view>
+    ev_sync g sender senderTime <batch> | ev_suspect g m inc | ev_alive g m inc | ev_add_peer g p
+    ev_ping_ack g target 0|1 | ev_suspect_node g m
+    ev_round g k t0 <order> <expired>      gossip_round that found targets: k = max_states_per_message,
+                                           <order> = HashMap iteration order of the view, <expired> = the
+                                           suspicions that were failed, in the order they were failed;
+                                           t0 = 1: suspicion_timeout_ms = 0, every other pending suspicion
+                                           expires too
+                                           -> <out> | rej=.. own=.. sus=.. | <view>
+  <out>   = `-` or the message handed to the transport: sync/<sender>/<time>/<batch>, alive/<m>/<inc>,
+            suspect/<m>/<inc>
   <batch> = `-` or `m:h:ts:inc;m:h:ts:inc;..`, h ∈ H D F U
   <view>  = `clk=<lamport> 0=<h:ts:inc or -> 1=.. .. 5=..`
 -/
@@ -69,6 +79,29 @@ def withMgr (d : DState) (g : String) (f : Mgr → Mgr) : DState × String :=
   | some i => match d.mgrs[i]? with
     | some m => let m' := f m
                 ({ d with mgrs := d.mgrs.set i m' }, showMgr m')
+    | none => (d, "bad-op")
+  | none => (d, "bad-op")
+
+def showBatch (b : List Update) : String :=
+  if b.isEmpty then "-" else ";".intercalate (b.map fun u => s!"{u.node}:{showReg u.reg}")
+
+def showMsg : Msg → String
+  | .sync s b t => s!"sync/{s}/{t}/{showBatch b}"
+  | .alive m i => s!"alive/{m}/{i}"
+  | .suspect m i => s!"suspect/{m}/{i}"
+  | .addPeer p => s!"add_peer/{p}"
+  | .pingAck t ok => s!"ping_ack/{t}/{ok}"
+
+def showOut (ms : List Msg) : String :=
+  if ms.isEmpty then "-" else "+".intercalate (ms.map showMsg)
+
+/-- one manager event: answer = what it hands to the transport, then the manager -/
+def withEv (d : DState) (g : String) (e : Mgr → MEv) : DState × String :=
+  match g.toNat? with
+  | some i => match d.mgrs[i]? with
+    | some m => let ev := e m
+                let m' := m.stepEv ev
+                ({ d with mgrs := d.mgrs.set i m' }, showOut (m.out ev) ++ " | " ++ showMgr m')
     | none => (d, "bad-op")
   | none => (d, "bad-op")
 
@@ -128,6 +161,30 @@ def gossipStep (d : DState) (line : String) : DState × String :=
     | some m, some inc => withMgr d g fun x => x.handleAlive m inc
     | _, _ => bad
   | ["mgr_view", g] => withMgr d g id
+  | ["ev_sync", g, sender, st, b] => match sender.toNat?, st.toNat?, parseBatch b with
+    | some sender, some st, some b => withEv d g fun _ => .msg (.sync sender b st)
+    | _, _, _ => bad
+  | ["ev_suspect", g, m, inc] => match m.toNat?, inc.toNat? with
+    | some m, some inc => withEv d g fun _ => .msg (.suspect m inc)
+    | _, _ => bad
+  | ["ev_alive", g, m, inc] => match m.toNat?, inc.toNat? with
+    | some m, some inc => withEv d g fun _ => .msg (.alive m inc)
+    | _, _ => bad
+  | ["ev_add_peer", g, p] => match p.toNat? with
+    | some p => withEv d g fun _ => .msg (.addPeer p)
+    | none => bad
+  | ["ev_ping_ack", g, t, ok] => match t.toNat?, ok.toNat? with
+    | some t, some ok => withEv d g fun _ => .msg (.pingAck t (ok != 0))
+    | _, _ => bad
+  | ["ev_suspect_node", g, m] => match m.toNat? with
+    | some m => withEv d g fun _ => .suspectNode m
+    | none => bad
+  | ["ev_round", g, k, t0, order, expired] =>
+    match k.toNat?, t0.toNat?, parseNats order, parseNats expired with
+    | some k, some t0, some order, some expired =>
+      withEv d g fun x =>
+        .round order k (if t0 != 0 then expired ++ (x.expire expired).suspicions else expired)
+    | _, _, _, _ => bad
   | _ => bad
 
 def main : IO Unit := run gossipStep dInit
